@@ -21,6 +21,7 @@ CONSTANT MaxT
 VARIABLES q,     \* abstract queue content
           cap,   \* capacity, 0 = unbounded
           st,    \* per goroutine: phase of its current call and what it has seen
+          g,     \* summary of the history since reset (for the progress clause)
           l      \* next event of the history
 
 Trace == ndJsonDeserialize("trace.ndjson")
@@ -42,14 +43,21 @@ Mark(s, qq) == [t \in T |->
     ELSE [s[t] EXCEPT !.sf = @ \/ IsFullQ(qq), !.se = @ \/ (qq = <<>>),
                       !.ov = @ \/ (\E u \in T : u # t /\ s[u].ph # "idle")]]
 
-Init == /\ l = 1 /\ q = <<>> /\ cap = 0 /\ st = [t \in T |-> Idle] /\ TLCSet(1, 0)
+\* kind: "none" | "push" | "pop" | "mixed" (which calls were issued), n: how many, ok: one succeeded,
+\* init: initial length, dirty: an observer already popped
+G0(n0) == [kind |-> "none", n |-> 0, ok |-> FALSE, init |-> n0, dirty |-> FALSE]
+KindOf(op) == IF op \in PushLike THEN "push" ELSE IF op \in PopLike THEN "pop" ELSE "mixed"
+Join(k1, k2) == IF k1 = "none" THEN k2 ELSE IF k1 = k2 THEN k1 ELSE "mixed"
+
+Init == /\ l = 1 /\ q = <<>> /\ cap = 0 /\ st = [t \in T |-> Idle] /\ g = G0(0) /\ TLCSet(1, 0)
 
 Reset == /\ Ev.ev = "reset" /\ l' = l + 1
-         /\ q' = Ev.init /\ cap' = Ev.cap /\ st' = [t \in T |-> Idle]
+         /\ q' = Ev.init /\ cap' = Ev.cap /\ st' = [t \in T |-> Idle] /\ g' = G0(Len(Ev.init))
 
 Inv == /\ Ev.ev = "inv" /\ l' = l + 1
        /\ st[Ev.t].ph = "idle"
        /\ st' = Mark([st EXCEPT ![Ev.t] = [Idle EXCEPT !.ph = "inv", !.op = Ev.op, !.arg = Ev.arg]], q)
+       /\ g' = [g EXCEPT !.kind = Join(@, KindOf(Ev.op)), !.n = @ + 1]
        /\ UNCHANGED <<q, cap>>
 
 \* the instant at which the call of t takes effect
@@ -60,7 +68,7 @@ Lin(t) == /\ st[t].ph = "inv"
              \/ /\ st[t].op \in PopLike /\ q # <<>>
                 /\ q' = Tail(q)
                 /\ st' = Mark([st EXCEPT ![t].ph = "lin", ![t].res = <<Head(q), TRUE>>], q')
-          /\ UNCHANGED <<cap, l>>
+          /\ UNCHANGED <<cap, l, g>>
 
 LenOK(n, quiescent) == IF quiescent THEN n = Len(q) ELSE n >= 0 /\ (cap > 0 => n <= cap)
 
@@ -79,6 +87,7 @@ Ret == /\ Ev.ev = "ret" /\ l' = l + 1
              \/ /\ Ev.op = "isempty" /\ s.ph = "inv" /\ (~s.ov => Ev.ret[1] = (q = <<>>))
              \/ /\ Ev.op = "isfull" /\ s.ph = "inv" /\ (~s.ov => Ev.ret[1] = IsFullQ(q))
        /\ st' = Mark([st EXCEPT ![Ev.t] = Idle], q)
+       /\ g' = [g EXCEPT !.ok = @ \/ (st[Ev.t].ph = "lin" /\ Ev.op \in PushLike \cup PopLike)]
        /\ UNCHANGED <<q, cap>>
 
 Quiescent == \A t \in T : st[t].ph = "idle"
@@ -87,7 +96,7 @@ Quiescent == \A t \in T : st[t].ph = "idle"
 Probe == /\ Ev.ev = "probe" /\ l' = l + 1
          /\ LenOK(Ev.len, Quiescent)
          /\ ("empty" \in DOMAIN Ev /\ Quiescent) => (Ev.empty = (q = <<>>) /\ Ev.full = IsFullQ(q))
-         /\ UNCHANGED <<q, cap, st>>
+         /\ UNCHANGED <<q, cap, st, g>>
 
 \* the observer reads Len() = n and then pops until Pop fails: the values come off the front in
 \* FIFO order; n may not be below the number of values it could pop (C11); when nothing else is
@@ -98,13 +107,19 @@ ProbeDrain == /\ Ev.ev = "probedrain" /\ l' = l + 1
               /\ LenOK(Ev.len, Quiescent)
               /\ (cap = 0 => Ev.len >= Len(Ev.popped))
               /\ (Quiescent => Ev.popped = q)
+              \* progress (C01): only pushers ran on a ring with room for all of them, or only poppers
+              \* on a ring holding enough elements: at least one of them must have succeeded
+              /\ (Quiescent /\ ~g.dirty /\ cap > 0 /\ g.n > 0) =>
+                    /\ (g.kind = "push" /\ g.init + g.n <= cap) => g.ok
+                    /\ (g.kind = "pop" /\ g.n <= g.init) => g.ok
+              /\ g' = [g EXCEPT !.dirty = TRUE]
               /\ q' = SubSeq(q, Len(Ev.popped) + 1, Len(q))
               /\ st' = Mark(st, q')
               /\ UNCHANGED cap
 
 Next == \/ l <= Len(Trace) /\ (Reset \/ Inv \/ Ret \/ Probe \/ ProbeDrain)
         \/ \E t \in T : Lin(t)
-vars == <<q, cap, st, l>>
+vars == <<q, cap, st, g, l>>
 Spec == Init /\ [][Next]_vars
 
 \* the search keeps the highest event index it reached in TLC register 1 (needs -workers 1)
